@@ -217,6 +217,23 @@ theorem quoteName_nameOk_any (raw : Text) (hne : raw ≠ []) (h : ∀ c ∈ raw,
         exact quoteChar_nameRe_all c (h c hm).1 (h c hm).2 x hxc
   · exact quoteName_nameOk raw hne h h4
 
+/-! ### the boundary of the foreign-style domain: white space after a name -/
+
+/-- the names of the top-level variables of a parse result (a decidable observation of it) -/
+def kidNames : Except Err Dataset → Option (List Text)
+  | .ok d => some (d.kids.map Tmpl.name)
+  | .error _ => none
+
+/-- `Dataset { Int32 a ; } d;` — white space between a name and `;` — is read as a variable named `a%20`:
+    pydap's name token is `[^;\[]+` and is not stripped -/
+theorem space_after_name_kept :
+    kidNames (parseDds ("Dataset { Int32 a".toList ++ [' '] ++ "; } d;".toList)) = some ["a%20".toList] := by
+  decide +kernel
+
+theorem space_before_bracket_kept :
+    kidNames (parseDds ("Dataset { Int32 a".toList ++ [' '] ++ "[2]; } d;".toList)) = some ["a%20".toList] := by
+  decide +kernel
+
 /-! ### every DAP2 type is in the domain -/
 
 /-- every DAP2 base type pydap can declare is the declared type of some numpy dtype, and the parser knows it -/
